@@ -356,12 +356,10 @@ func runScenario(t *testing.T, line string) string {
 					bad = true
 					break
 				}
-				if !c.sent {
-					// Editing a request that still waits for its NSTART slot is caller misuse with a visible effect (the
-					// clone is taken when the call is made, the first datagram is written from the caller's message
-					// after the wait); the property is about edits after the request was sent. Skipped.
-					break
-				}
+				// Editing the message while Do runs is not allowed by the API (the message belongs to the call; pool.Message
+				// is not safe for concurrent use). It is done here nevertheless, also while the request still waits for its
+				// NSTART slot (Do's goroutine is blocked in the semaphore then), to compare with the model's two sources:
+				// first datagram from the caller's message, retransmissions from the clone taken when the call was made.
 				c.req.SetCode(codes.POST)
 				c.req.AddQuery("mutated=1")
 				c.req.SetBody(bytes.NewReader([]byte("changed")))
